@@ -335,12 +335,34 @@ def _impl_worker(args):
     return sx.dumps(out)
 
 
+TIMEOUT_OUT = sx.dumps([-1, ERR_TIMEOUT])
+MAX_TIMEOUTS = 12        # a change that makes calls hang would otherwise cost (cases x time limit)
+
+
 def run_impl(modname, comp, inputs, parallel=True):
+    """Implementation outputs, in input order.  May be SHORTER than `inputs`: after MAX_TIMEOUTS
+    cases ran into their wall-clock limit the run stops and the completed prefix is returned (the
+    timed-out cases are in it and are reported like any other disagreement)."""
     args = [(modname, comp.name, s, comp.timeout) for s in inputs]
+    out, nto = [], 0
     if not parallel or len(args) < 64:
-        return [_impl_worker(a) for a in args]
-    with Pool(NCPU) as pool:
-        return pool.map(_impl_worker, args, chunksize=max(1, len(args) // (NCPU * 8)))
+        for a in args:
+            out.append(_impl_worker(a))
+            nto += out[-1] == TIMEOUT_OUT
+            if nto >= MAX_TIMEOUTS:
+                break
+        return out
+    pool = Pool(NCPU)
+    try:
+        for o in pool.imap(_impl_worker, args, chunksize=max(1, min(8, len(args) // (NCPU * 8)))):
+            out.append(o)
+            nto += o == TIMEOUT_OUT
+            if nto >= MAX_TIMEOUTS:
+                break
+    finally:
+        pool.terminate()
+        pool.join()
+    return out
 
 
 # --------------------------------------------------------------------------- reporting
@@ -393,6 +415,12 @@ class Report:
         in_s = [sx.dumps(i) for i in inputs]
         raw_s = in_s
         impl_out = run_impl(modname, comp, in_s, parallel)
+        if len(impl_out) < len(inputs):
+            print(f"[{self.prop}] {comp.name}: stopped after {len(impl_out)} of {len(inputs)} cases: "
+                  f"{MAX_TIMEOUTS} cases exceeded their time limit of {comp.timeout}s", flush=True)
+            self.stopped_early = True
+            inputs, in_s = inputs[:len(impl_out)], in_s[:len(impl_out)]
+            raw_s = in_s
         if comp.split is not None:
             # the implementation run also produced the concrete input of the model
             # (e.g. the call list of an adaptively driven history)
